@@ -190,12 +190,15 @@ class SmtpSession(object):
         self.envelope.parse(data)
 
         results = self.handoff(self.envelope)
-        if isinstance(results[0][1], QueueError):
+        # Any envelope that was not taken into custody fails the whole message.
+        failed = [res for _, res in results
+                  if isinstance(res, (QueueError, RelayError))]
+        if failed and isinstance(failed[0], QueueError):
             default_reply = Reply('451', '4.3.0 Error queuing message')
-            queue_reply = getattr(results[0][1], 'reply', default_reply)
+            queue_reply = getattr(failed[0], 'reply', default_reply)
             reply.copy(queue_reply)
-        elif isinstance(results[0][1], RelayError):
-            relay_reply = results[0][1].reply
+        elif failed:
+            relay_reply = failed[0].reply
             reply.copy(relay_reply)
         else:
             reply.message = '2.6.0 Message accepted for delivery'
